@@ -255,3 +255,7 @@ def run_thorough(ck):
     null_rule(ck, P2, "K2")
     roots = [f.path for f in exported(P2, gz=False)]
     abort.check(ck, P2, roots, "ABORT/c-api@K2", abort_table.JUSTIFIED, api_fns=None, label="C API")
+
+# session 5 (round 9, D24)
+EXPLANATION = EXPLANATION + " " + (
+    'TAINT/api-int-arith: state fields that an API setter stores from unvalidated integer parameters (deflateTune) never feed unguarded overflow-checked arithmetic. ATOM/c-truthiness: int parameters become bool arguments by `!= 0`.')
